@@ -920,6 +920,9 @@ class Fn:
             return 'Exn'
         if k == 'CStyleCastExpr' and s0.get('castKind') == 'ToVoid':   # C12: `(void)x;`
             return rest()
+        if k == 'CXXStaticCastExpr' and s0.get('castKind') == 'ToVoid' and \
+                skip_wrappers(s0['inner'][0])['kind'] == 'IntegerLiteral':   # C01: `static_cast<void>(0);` = assert under -DNDEBUG
+            return rest()
         raise TranslationError('statement kind ' + k)
 
     def functor_of(self, n):
